@@ -154,7 +154,7 @@ PROPS = {
         "constants": ["INITIAL_TIMEOUT_ns", "NODE_TIMEOUT_ns", "NO_NETWORK_TIMEOUT_ns", "PERIODIC_CHECK_TIMEOUT_ns", "GOOD_NODE_THRESHOLD", "MAX_INITIAL_RESPONSES", "BOOTSTRAP_RETRY_BASE", "BOOTSTRAP_RETRY_MAX_EXP", "BOOTSTRAP_THROTTLE_AFTER"],
         "trusted": NODE_TRUST,
         "assumptions": [],
-        "level_note": "PARTIAL: proved for every run of the node model — no contacts: Bootstrapped in the starting step and the worker never attempts anything; with contacts: no Bootstrapped publication, no handled completion and no returning bootstrapped() before a contact's response was accepted; every waiter resolved in the step of the completion, nobody left waiting while bootstrapped, immediate return while bootstrapped; API commands always answered; first-round contacts pairwise distinct and, in every state of every run, the exchanges registered with the socket have pairwise distinct (address, id) keys (the F15 assertion is unreachable). Not proved in Lean — the timed clause (resolution within about 11 minutes of a contact becoming responsive after any outage pattern): decided by the [C15] oracle of the node engine on outage/flapping scenarios against the real node (tie). Finding F15 demonstrated by the node engine and fixed in /repo",
+        "level_note": "proved for every run of the node model — no contacts: Bootstrapped in the starting step and the worker never attempts anything; with contacts: no Bootstrapped publication, no handled completion and no returning bootstrapped() before a contact's response was accepted; every waiter resolved in the step of the completion, nobody left waiting while bootstrapped, immediate return while bootstrapped; API commands always answered; first-round contacts pairwise distinct and, in every state of every run, the exchanges registered with the socket have pairwise distinct (address, id) keys (the F15 assertion is unreachable); and, since session 4, the timed clause: for a router-less node, from any state reached by any punctual run (any outages, failed attempts, earlier completions), once a node contact c answers every first-round query sent to it after t0 within its 2.5 s time-out (responsiveness stated on inputs and trace only: RespRunT, monitor owedScan), Bootstrapped is published, observed and every pending bootstrapped() call resolved by t0 + bootBound n = t0 + 512 s + 2(2.5 s + 0.5 s (n-9)) + 80 s, i.e. <= 608 s < 11 min for n <= 20 contacts (C15_completes, C15_completes_trace, C15_bound_11_minutes, C15_progress_invariant: a progress invariant of worker phases proved for every punctual run). Explicit hypotheses: punctuality of the run (the fuel-bounded loops of the model never run dry, i.e. tokio's timers fire) and the responsiveness of c. Finding F15 demonstrated by the node engine and fixed in /repo",
     },
     "C11": {
         "engines": [{"name": "node", "quick": 42, "thorough": 140, "oracle_tag": "C11"},
